@@ -31,9 +31,11 @@ PROPS = {
                  'single-use) in order, caches the id mapping both ways and holds dbMutex throughout; getKeyIDForID maps a stored key text with its stored '
                  'byte length (NUL-safe); build() runs nothing when BEGIN EXCLUSIVE fails; open(): a database is interpreted only when the stored schema AND client '
                  'version both match, otherwise it is rejected (no recreation allowed: nothing deleted) or deleted and recreated completely; every '
-                 'statement is prepared from its own SQL text on the open connection; no SQLite call on a closed or null connection',
-        'not_decided': ['SQLite itself (statement semantics, type affinity of the key column -- candidate finding F11, BEGIN EXCLUSIVE, atomic commit)',
-                        'setRuleResult (encode side) is not under contract at this commit',
+                 'statement is prepared from its own SQL text on the open connection; no SQLite call on a closed or null connection; the key column is '
+                 'declared with TEXT/BLOB affinity; setRuleResult binds every field of a result to the column the table declares for it and encodes '
+                 'the dependency list word by word (db id << 2 | single-use << 1 | order-only) in order -- the inverse of what lookupRuleResult decodes',
+        'not_decided': ['SQLite itself (statement semantics, BEGIN EXCLUSIVE, atomic commit)',
+                        'getKeyID / getKeyIDFromDB (the key table insert path) are used through an assumed functional view',
                         'getKeyIDForID is used inside lookupRuleResult through an assumed functional view (its cache/db consistency is not proved)'],
     },
     'C04': {
